@@ -294,6 +294,39 @@ def h_negative(ctx):
     return Outcome(f"{mode}:{'returned' if r.ok else 'rej:' + r.etype}", vs, nontrivial=(family, alg, body, zipv, mode, held if family == "jws" else None))
 
 
+def h_secret_forms(ctx):
+    """One shared secret whose octets end or begin in white space, held as octets / text / a JWK by the party that encodes and in another of these
+    forms by the party that decodes: the token decodes to the claims, over JWS (HS256) and JWE (dir, A128KW)."""
+    from joserfc import jwt, jwe
+    from joserfc.jwk import OctKey
+    from .c07 import SECRETS, secret_octets
+    family, alg, n = ctx.choose("transport", [("jws", "HS256", 32), ("jws", "HS512", 64), ("jwe", "dir", 16), ("jwe", "A128KW", 16)])
+    label, shape = ctx.choose("secret", SECRETS)
+    f_enc = ctx.choose("encoder_holds", ["bytes", "str", "jwk"])
+    f_dec = ctx.choose("decoder_holds", ["bytes", "str", "jwk"])
+    raw = secret_octets(shape, n)
+
+    def key(form):
+        if form == "bytes":
+            return OctKey.import_key(raw)
+        if form == "str":
+            return OctKey.import_key(raw.decode("ascii"))
+        return OctKey.import_key({"kty": "oct", "k": b64.enc(raw)})
+    claims = {"iss": "a", "n": 1}
+    header = {"alg": alg} if family == "jws" else {"alg": alg, "enc": "A128GCM"}
+    kw = {"algorithms": [alg]} if family == "jws" else {"registry": jwe.JWERegistry(algorithms=[alg, "A128GCM"])}
+    what = f"{family}/{alg}, a {n}-octet secret that {label}: encoded with the secret as {f_enc}, decoded with it as {f_dec}"
+    nt = (family, alg, shape, f_enc, f_dec)
+    r = call(lambda: jwt.encode(dict(header), dict(claims), key(f_enc), **kw))
+    if not r.ok:
+        return Outcome("secret-forms:encode-failed", [viol(f"jwt.encode fails with the shared secret given as {f_enc} ({family})", f"{what}: {r.exc!r}")], nontrivial=nt)
+    d = call(lambda: jwt.decode(r.value, key(f_dec), **kw).claims)
+    vs = []
+    if not d.ok or d.value != claims:
+        vs.append(viol(f"a JWT does not decode when the two parties hold the one secret in different forms ({family})", f"{what}: {d.exc!r}"))
+    return Outcome(f"secret-forms:{'ok' if not vs else 'bad'}:{family}", vs, nontrivial=nt)
+
+
 # ------------------------------------------------------------------ what a caller does with a result must not reach later calls
 EDITS = ["none", "header.pop(typ)", "header[kid]=other", "header.clear()", "claims.clear()", "claims[iss]=evil", "claims nested value edited"]
 
@@ -446,6 +479,7 @@ def h_threads(ctx):
 PARTS = [
     Part("encode-decode", h_roundtrip, split_depth=3, budget={"quick": 1200, "thorough": 1800}),
     Part("non-object-payloads", h_negative, split_depth=2),
+    Part("one-secret-held-in-different-forms", h_secret_forms, split_depth=2),
     Part("results-edited-by-the-caller", h_repeated, bound={"quick": 1, "thorough": 1}, split_depth=2),
     Part("thread-schedules", h_threads, bound={"quick": 1, "thorough": 2}, split_depth=2, budget={"quick": 2000, "thorough": 3000}, engine="E3"),
 ]
